@@ -13,6 +13,9 @@ mod mon_d;
 mod mon_e;
 mod mon_f;
 mod mon_g;
+mod mon_h;
+mod mon_i;
+mod mon_j;
 mod nodes;
 mod render;
 mod scalars;
@@ -130,6 +133,11 @@ fn run(args: &Args) {
         "C08" => mon_f::run_c08(&args.tier, args.seed, args.shard, args.nshards, args.scale, &mut stats),
         "C09" => mon_g::run_c09(&args.tier, args.seed, args.shard, args.nshards, args.scale, &mut stats),
         "C13" => mon_g::run_c13(&args.tier, args.seed, args.shard, args.nshards, args.scale, &mut stats),
+        "C20" => mon_h::run_c20(&args.tier, args.seed, args.shard, args.nshards, args.scale, &mut stats),
+        "C15" => mon_i::run_c15(&args.tier, args.seed, args.shard, args.nshards, args.scale, &mut stats),
+        "C16" => mon_i::run_c16(&args.tier, args.seed, args.shard, args.nshards, args.scale, &mut stats),
+        "C18" => mon_i::run_c18(&args.tier, args.seed, args.shard, args.nshards, args.scale, &mut stats),
+        "C11" => mon_j::run_c11(&args.tier, args.seed, args.shard, args.nshards, &mut stats),
         "C04" => mon_d::run_c04(&args.tier, args.seed, args.shard, args.nshards, args.scale, &mut stats),
         "C05" => mon_d::run_c05(&args.tier, args.seed, args.shard, args.nshards, args.scale, &mut stats),
         p => {
@@ -161,6 +169,11 @@ fn replay(path: &str) {
         "C03" => mon_c::replay_c03(&case, &mut stats),
         "C06" => mon_c::replay_c06(&case, &mut stats),
         "C04" => mon_d::replay_c04(&case, &mut stats),
+        "C11" => mon_j::replay_c11(&case, &mut stats),
+        "C15" => mon_i::replay_c15(&case, &mut stats),
+        "C16" => mon_i::replay_c16(&case, &mut stats),
+        "C18" => mon_i::replay_c18(&case, &mut stats),
+        "C20" => mon_h::replay_c20(&case, &mut stats),
         "C09" => mon_g::replay_c09(&case, &mut stats),
         "C13" => mon_g::replay_c13(&case, &mut stats),
         "C08" => mon_f::replay_c08(&case, &mut stats),
@@ -201,9 +214,13 @@ fn main() {
         std::process::exit(2);
     }
     match a[0].as_str() {
-        "run" => run(&parse_args(&a[1..])),
+        "run" => {
+            util::start_watchdog(60);
+            run(&parse_args(&a[1..]))
+        }
         "replay" => replay(&a[1]),
         "distinct" => distinct(&a[1..]),
+        "c11child" => mon_j::child(&a[1], a[2].parse().unwrap_or(1), &a[3]),
         "events" => {
             use std::io::Read;
             let mut s = String::new();
